@@ -13,6 +13,13 @@ From Yv Require Export Common.Base C18.Model C18.Spec.
    feedable lines taken, result *)
 Definition entry := (list nat * nat * nat * pres)%type.
 
+Definition nsrc_eqb (a b : nsrc) : bool :=
+  match a, b with
+  | NMem x, NMem y => list_eqb str_eqb x y
+  | NFile x, NFile y => str_eqb x y
+  | _, _ => false
+  end.
+
 Fixpoint cmd_eqb (a b : cmd) : bool :=
   match a, b with
   | CNop, CNop => true
@@ -32,6 +39,7 @@ Fixpoint cmd_eqb (a b : cmd) : bool :=
   | CNot a1, CNot b1 => cmd_eqb a1 b1
   | CIf a1 a2 a3, CIf b1 b2 b3 => cmd_eqb a1 b1 && cmd_eqb a2 b2 && cmd_eqb a3 b3
   | CSub a1, CSub b1 => cmd_eqb a1 b1
+  | CNest x, CNest y => nsrc_eqb x y
   | _, _ => false
   end.
 
@@ -134,7 +142,14 @@ Record case := mkCase {
   c_data : list N;
   c_states : list pstate;
   c_table : list entry;
-  c_runs : list (feed * iout)
+  c_runs : list (feed * iout);
+  (* nested read-eval loops: the nesting level the model is run at (0: the
+     script has no `eval` / `.`), the texts of the nested loops (operands of
+     `eval`, contents of the files of `.`) and the parser's decisions on them
+     (text index, entry relative to that text) *)
+  c_level : nat;
+  c_texts : list (list N);
+  c_ntable : list (nat * entry)
 }.
 
 Fixpoint chunk (sizes : list nat) (x : list N) : dev :=
@@ -163,6 +178,39 @@ Definition spec_of (parser : list pstate -> list line -> pres) (fuel pf : nat)
     (script data : list N) (f : feed) : final :=
   if shared f then spec_run parser fuel pf LShared (split_lines script)
   else spec_run parser fuel pf (LLines (split_lines script)) (split_lines data).
+
+(* How a nested loop that did not end normally shows in the final state of
+   the model (Model.v ST_INTR, ST_ABN): decoded here.  A syntax error in a
+   nested text interrupts the shell like one in the script. *)
+Definition decode_final (f : final) : final :=
+  match f_tag f with
+  | FExit =>
+      if N.leb ST_ABN (f_status f) then
+        mkFinal (if N.eqb (f_status f) (ST_ABN + 3) then FStuck
+                 else if N.eqb (f_status f) (ST_ABN + 4) then FUnknown else FOutOfFuel)
+                0 (f_off f) (f_evs f)
+      else if N.leb ST_INTR (f_status f) then
+        mkFinal FSyntax (f_status f - ST_INTR) (f_off f) (f_evs f)
+      else f
+  | _ => f
+  end.
+
+Definition nmodel_of (parser : list pstate -> list line -> pres) (lvl fuel pf : nat)
+    (script data : list N) (f : feed) : final :=
+  decode_final
+  match f with
+  | FdFile => nmodel_run parser lvl fuel pf SrcStdin [script]
+  | FdFifo sizes => nmodel_run parser lvl fuel pf SrcStdin (chunk sizes script)
+  | FdString => nmodel_run parser lvl fuel pf (SrcMem (split_lines script)) [data]
+  | FdScript => nmodel_run parser lvl fuel pf (SrcOwn [script]) [data]
+  | FdPieces sizes => nmodel_run parser lvl fuel pf (SrcInput (chunk sizes script)) [data]
+  end.
+
+Definition nspec_of (parser : list pstate -> list line -> pres) (lvl fuel pf : nat)
+    (script data : list N) (f : feed) : final :=
+  decode_final
+  (if shared f then nspec_run parser lvl fuel pf LShared (split_lines script)
+   else nspec_run parser lvl fuel pf (LLines (split_lines script)) (split_lines data)).
 
 (* bytes, any value (the script need not be valid UTF-8) *)
 Definition in_domain (x : list N) : bool :=
@@ -232,7 +280,7 @@ Definition rank (v : verdict) : N :=
 Definition worse (a b : verdict) : verdict :=
   if N.ltb (rank a) (rank b) then b else a.
 
-Definition run_one (parser : list pstate -> list line -> pres) (fuel pf : nat) (aligned : bool)
+Definition run_one (parser : list pstate -> list line -> pres) (lvl fuel pf : nat) (aligned : bool)
     (script data : list N) (ref : option obs) (fo : feed * iout) : verdict :=
   let (f, io) := fo in
   match io with
@@ -245,27 +293,29 @@ Definition run_one (parser : list pstate -> list line -> pres) (fuel pf : nat) (
       else if shared f && negb (match ref with Some o0 => obs_eqb o0 o | None => true end) then 2%N
       else if aligned && negb (line_aligned (if shared f then script else data) o) then 3%N
       else
-        let sp := spec_of parser fuel pf script data f in
+        let sp := nspec_of parser lvl fuel pf script data f in
         if negb (modelled_tag (f_tag sp)) then 99%N
         else if negb (obs_eqb (obs_of_final sp) o) then 4%N
         else
           (* MODEL *)
-          if obs_eqb (obs_of_final (model_of parser fuel pf script data f)) o then 0%N else 1%N
+          if obs_eqb (obs_of_final (nmodel_of parser lvl fuel pf script data f)) o then 0%N else 1%N
   end.
 
 Definition run_case (c : case) : verdict :=
   let script := c_script c in
   let data := c_data c in
-  if negb (in_domain script && in_domain data) then 99%N
+  if negb (in_domain script && in_domain data && forallb in_domain (c_texts c)) then 99%N
   else
-    let t := map (expand (c_states c) script) (c_table c) in
+    let t := map (expand (c_states c) script) (c_table c)
+             ++ map (fun ie : nat * entry => expand (c_states c) (nth (fst ie) (c_texts c) []) (snd ie))
+                    (c_ntable c) in
     if negb (table_ok t) then 9%N
     else
       let parser := tab_parser t in
-      let pf := (length script + length data + 2)%nat in
+      let pf := (length script + length data + length (concat (c_texts c)) + 2)%nat in
       let fuel := (pf * table_depth t + 1)%nat in
       let ref := first_shared (c_runs c) in
-      fold_left (fun v fo => worse v (run_one parser fuel pf (table_reads_lines t) script data ref fo))
+      fold_left (fun v fo => worse v (run_one parser (c_level c) fuel pf (table_reads_lines t) script data ref fo))
                 (c_runs c) 0%N.
 
 Definition run_cases := run_cases_with run_case.
